@@ -59,6 +59,38 @@ def counterAfter (N : Nat) : Nat → Nat → Nat
   | 0, c => c
   | n + 1, c => counterAfter N n (poll N c).1
 
+/-! ## The entry code of one call on an Interpreter
+
+`Execute` assigns `checkCtx = false`; `ExecuteContext` assigns — unconditionally, regenerated fact `ctxFieldWrites` —
+`checkCtx`, `ctx`, `ctxDone` and `ctxOps = 0` from its argument. `cancellable = false` stands for `context.Background()` /
+`context.TODO()` (their Done channel is nil: never ready). -/
+
+structure CtxState where
+  checkCtx : Bool
+  cancelAt : Option Nat    -- the context: the dispatch index from which its Done channel is readable (none = never)
+  ctxOps : Nat
+  deriving DecidableEq, Repr
+
+inductive Call
+  | execute
+  | executeContext (cancellable : Bool) (t : Option Nat)
+  deriving DecidableEq, Repr
+
+def entry : Call → CtxState → CtxState
+  | .execute, s => { s with checkCtx := false }
+  | .executeContext cancellable t, _ => ⟨cancellable, if cancellable then t else none, 0⟩
+
+/-- what the caller can observe of a run: the dispatch at which the context error was returned (if it was) and the
+tick() calls made -/
+def observe : Outcome → Option Nat × Counts
+  | .ctxErr i _ k => (some i, k)
+  | .finished _ k => (none, k)
+
+/-- one call on an Interpreter whose context fields were left in state `s` by the previous call -/
+def callOutcome (N : Nat) (k : Call) (s : CtxState) (tr : List D) : Option Nat × Counts :=
+  let s' := entry k s
+  if s'.checkCtx then observe (run N s'.cancelAt tr 0 s'.ctxOps ⟨0, 0⟩) else (none, runNoPoll tr ⟨0, 0⟩)
+
 /-! ## The loop shape used for the correspondence check
 
 `BEGIN { while (1) { tick(); if (++i == P) cancel() } }` compiles to 2 dispatches of prelude and 11 dispatches per
